@@ -6,6 +6,7 @@
 //! * `pan`     — panic capture (message + location) for oracles that must see "returned" vs "panicked".
 //! * `rng`     — the one PRNG used for the seed-derived members of alphabets.
 //! * `refmath` — reference arithmetic (prime fields, extensions, polynomials) sharing no code with /repo.
+pub mod alloc;
 pub mod engine;
 pub mod pan;
 pub mod refmath;
